@@ -292,7 +292,19 @@ def end_to_end(ctx):
         w = worlds.gen_world(rng, n_layers=2, tests_per_layer=(1, 4), p_fault=0.0, p_write=0.0)
         o = worlds.gen_opts(rng, allow=("repeat",))
         o["verbose"] = 1
+        if i % 2 == 0:
+            o["repeat"] = rng.choice([2, 3])     # every iteration's events are in the reports
         cases.append(cw.Case(w, o))
+    # --buffer: what failing tests wrote (terminal colours, NUL, form feed) may or may not be part of the reports -
+    # they stay well-formed
+    for i in range(4 if ctx.quick() else 60):
+        w = worlds.gen_world(rng, n_layers=2, tests_per_layer=(1, 3), kinds=["pass", "fail", "error", "subFail2", "fail"],
+                             p_fault=0.0, p_write=0.9)
+        for t in w["tests"]:
+            for part in cw.parts_of(t):
+                if part.get("writes"):
+                    part["ctrl"] = True
+        cases.append(cw.Case(w, {"verbose": 1, "buffer": True}, "buffer-ctrl"))
     # several layers run in subprocesses (one after another behind a layer that cannot be torn down, or -j N):
     # every process writes the reports of its own tests into the same directory
     for i in range(6 if ctx.quick() else 100):
@@ -369,6 +381,40 @@ def end_to_end(ctx):
         if missing and not c.obs.timeout:
             ctx.violation("end-to-end: tests %r ran (%d processes) but have no report among %r" % (
                 missing, len(c.obs.procs), sorted(c.files)[:8]), case, signature="C17:missing-report")
+            continue
+        # every result event of every start of a test is one <testcase> - once per --repeat iteration, whichever
+        # process and layer loop it happened in; failure/error children as the events say
+        bad_count = None
+        if not c.obs.timeout and not cw.stateful(c.world) and all(t.get("count", 1) == 1 for t in c.world["tests"]):
+            starts = {}
+            for e in c.obs.events:
+                if e.get("ev") == "tstart":
+                    starts[e["t"]] = starts.get(e["t"], 0) + 1
+            for t in ran:
+                tops = [op for op in ops[t] if isinstance(op, str) and op in recorded]
+                want_cases = starts[t] * len(tops)
+                want_fail = starts[t] * sum(1 for op in tops if op in ("addFailure", "addSubTest:fail"))
+                # (an unexpected success is a reported problem: filed with a failure or an error child)
+                want_either = starts[t] * sum(1 for op in tops if op == "addUnexpectedSuccess")
+                want_err = starts[t] * sum(1 for op in tops if op in ("addError", "addSubTest:error"))
+                got_cases = got_fail = got_err = 0
+                for f, text in c.files.items():
+                    if f.endswith(".T%d.xml" % t):
+                        try:
+                            root = ElementTree.fromstring(text)
+                        except Exception:  # noqa: BLE001
+                            continue
+                        got_cases += len(root.findall("testcase"))
+                        got_fail += len(root.findall("testcase/failure"))
+                        got_err += len(root.findall("testcase/error"))
+                if got_cases != want_cases or got_fail < want_fail or got_err < want_err or \
+                        got_fail + got_err != want_fail + want_err + want_either:
+                    bad_count = ("end-to-end: test %d started %d time(s) with result events %r each, its report holds %d test "
+                                 "case(s), %d failure(s), %d error(s) (expected %d, %d, %d and %d of either kind)" % (
+                                     t, starts[t], tops, got_cases, got_fail, got_err, want_cases, want_fail, want_err, want_either))
+                    break
+        if bad_count:
+            ctx.violation(bad_count, case, signature="C17:per-iteration")
             continue
         for f, text in c.files.items():
             try:
